@@ -38,6 +38,10 @@ fn main() {
             }
         }
     }
+    if args[1] == "stress" {
+        plans::stress(args.get(2).unwrap_or_else(|| usage()), args.get(3).and_then(|s| s.parse().ok()).unwrap_or(100000));
+        return;
+    }
     if args[1] == "sizes" {
         plans::sizes();
         return;
